@@ -129,6 +129,36 @@ def ob_vmapped():
     st, m, where = eq_goal(ctx, assume, vm, np.array([o[()] for o in one], dtype=object), "vmapped")
     out.append(rec("C12/vmapped construction: unwrap(filter_vmap(Affine)(p)).scale[i] == unwrap(Affine(p[i])).scale for all p", "discharged" if st == "unsat" else "inconclusive",
                    detail="" if st == "unsat" else f"{st} at {where}"))
+    # stacked WeightNormalization (what a vmapped construction produces: every array leaf gets a leading axis): unwrap of the stack must be
+    # the stack of the individual unwraps, i.e. the norm is taken per row of EACH stacked matrix (WeightNormalization itself cannot be
+    # constructed under filter_vmap in this environment, so the stacked module is assembled with tree_map(jnp.stack))
+    from flowjax.wrappers import WeightNormalization
+    from ..sym import leaves_of, f64
+    ex3 = jnp.arange(1.0, 13.0).reshape(2, 2, 3)
+    parts = [f64(WeightNormalization(ex3[i])) for i in range(2)]          # built concretely (outside any trace), leaves made symbolic below
+    stacked_mod = jax.tree_util.tree_map(lambda *ls: jnp.stack(ls), *parts)
+    lv_s, mk_s, _ = leaves_of(stacked_mod)
+    lv_1, mk_1, _ = leaves_of(parts[0])
+    syms_s = [symarr(f"L{i}", l.shape) for i, l in enumerate(lv_s)]
+    ctx = Ctx()
+    I = Interp(ctx)
+    wsym = [sy for sy, l in zip(syms_s, lv_s) if l.shape == (2, 2, 3)][0]
+    assume = [z3.Or(*[v != 0 for v in wsym[b_, r_]]) for b_ in range(2) for r_ in range(2)]
+    set_path(assume, ctx.facts)
+    try:
+        st_ = I.run(trace(lambda ls: unwrap(mk_s(ls)), lv_s), *syms_s)[0]
+        one_ = [I.run(trace(lambda ls: unwrap(mk_1(ls)), lv_1), *[sy[i] for sy in syms_s])[0] for i in range(2)]
+        set_path(None)
+        stw, mw, wherew = eq_goal(ctx, assume, st_, np.stack(one_), "stacked weightnorm")
+        nmw = "C12/stacked WeightNormalization: unwrap(stack of wrappers)[i] == unwrap(wrapper i) for all leaf values (per-row norms of each stacked matrix)"
+        if stw == "unsat":
+            out.append(rec(nmw, "discharged"))
+        else:
+            ok_, msg_ = replay_stacked_weightnorm()
+            out.append(rec(nmw, "violation" if ok_ else "inconclusive", detail=f"{stw} at {wherew} | {msg_}", replay=dict(func="c12:replay_stacked_weightnorm", kwargs={})))
+    except jx.Unsupported as e:
+        set_path(None)
+        out.append(rec("C12/stacked WeightNormalization", "error", detail=f"unsupported: {e}"))
     # two levels of vmapped construction (Lambda wrappers of the spline)
     ctx = Ctx()
     I = Interp(ctx)
@@ -141,6 +171,18 @@ def ob_vmapped():
     out.append(rec("C12/two levels of vmapped construction: every slice of the unwrapped knots equals the individually constructed spline's", "discharged" if ok else "violation",
                    detail=f"shape {a.shape}", nontrivial=False, replay=None if ok else dict(func="c12:replay_unwrap", kwargs=dict(name="vmapped RQS"))))
     return out
+
+
+def replay_stacked_weightnorm():
+    import jax
+    import jax.numpy as jnp
+    from flowjax.wrappers import WeightNormalization, unwrap
+    w = jnp.asarray(np.random.RandomState(0).normal(size=(3, 2, 4)))
+    parts = [WeightNormalization(w[i]) for i in range(3)]
+    st = np.asarray(unwrap(jax.tree_util.tree_map(lambda *ls: jnp.stack(ls), *parts)))
+    one = np.stack([np.asarray(unwrap(p)) for p in parts])
+    bad = st.shape != one.shape or not np.allclose(st, one, rtol=1e-6, atol=1e-7)
+    return bool(bad), f"unwrap of three stacked WeightNormalization wrappers differs from the stack of their unwraps by {float(np.max(np.abs(st - one))) if st.shape == one.shape else 'shape'}"
 
 
 def ob_methods():
